@@ -622,8 +622,11 @@ What is **proved** about the environment clause, and what is only **exercised**:
   case folded, Turkish case mapping in `strcasecmp`/`tolower`/the ctype tables, `,` as decimal point, a UTC+13:45 zone
   behind `localtime`/`mktime`) on file names whose `strcmp` order differs from every collation (mixed case, punctuation,
   UTF-8 and Latin-1/5 letters, dotted/dotless i): the image must not change, and every call of such a function is recorded
-  (currently: none but the `isdigit`/`isspace` macros; no `setlocale`; the only environment variable asked for is
-  `SOURCE_DATE_EPOCH`). -/
+  (currently: the `isdigit`/`isspace` macros and `fnmatch` — `glob … -name` lines of a pack file, `[glob]` lines of a sort file;
+  inputs with bracket ranges / high bytes / a character class whose matching differs under case folding or collation are part of
+  every run — never with an active locale: no `setlocale`; the only environment variable asked for is `SOURCE_DATE_EPOCH`).
+  A packer that calls `setlocale` / `newlocale` with anything but `NULL` / `"C"` / `"POSIX"` is a violation by itself
+  (`tool-setlocale:`), whether or not the image of the input at hand changes. -/
 
 /-- **Environment clause (model level) — definition-level.**  The time stamps of an image — the super block's
 `modification_time` and every inode's `mod_time` — are the same in two process environments that agree on
